@@ -95,7 +95,7 @@ def combine(*fs):
 FULL = runner.ALL_KEYS
 
 CONFIG = {
-    "C01": dict(profile=dict(p_addoption=0.08, p_repeat_opt=0.5, p_required=0.03, p_bad_value=0.03, p_ev_unknown=0.02, p_ev_garbage=0.01, p_group=0.45, p_namespace=0.7,
+    "C01": dict(profile=dict(p_mid_attach=0.08, p_addoption=0.08, p_repeat_opt=0.5, p_required=0.03, p_bad_value=0.03, p_ev_unknown=0.02, p_ev_garbage=0.01, p_group=0.45, p_namespace=0.7,
                              p_commands=0.5, n_events=(1, 9), p_untagged=0.2, p_init=0.3, p_mutate_argv=0.03),
                 keys=["panic", "err", "vals", "calls", "attached", "set"], transform=t_err_type_only, theorems="C01_*"),
     "C02": dict(profile=dict(p_required=0.02, p_mb_short=0.25, p_quoted=0.3, p_bad_value=0.05, p_commands=0.2, p_ev_unknown=0.02, p_ev_garbage=0.01),
@@ -116,7 +116,7 @@ CONFIG = {
     "C07": dict(profile=dict(p_ev_unknown=0.3, p_wrong_scope=0.3, p_ignore=0.35, p_handler=0.45, p_required=0.02, p_commands=0.6, p_bad_value=0.02,
                              p_namespace=0.8, p_group=0.4, p_ev_cmd=0.2, max_depth=3, p_subopt=0.4, p_sibling_cmd=0.35),
                 keys=["panic", "err", "unknown", "ret", "vals"], transform=common.hide_help, theorems="C07_*"),
-    "C08": dict(profile=dict(p_commands=0.95, max_depth=3, p_alias=0.6, p_subopt=0.4, p_ev_cmd=0.35, p_required=0.02, p_bad_value=0.02,
+    "C08": dict(profile=dict(p_mid_attach=0.2, p_commands=0.95, max_depth=3, p_alias=0.6, p_subopt=0.4, p_ev_cmd=0.35, p_required=0.02, p_bad_value=0.02,
                              p_ev_unknown=0.03, n_events=(1, 9), p_positional=0.15, p_sibling_cmd=0.25),
                 keys=["panic", "err", "active", "vals", "ret"], transform=common.hide_help, theorems="C08_*", n_quick=250),
     "C09": dict(profile=dict(p_addoption=0.08, p_commands=0.95, p_exec=0.9, p_cmdhandler=0.5, p_exec_err=0.3, p_ev_cmd=0.3, p_required=0.15, p_bad_value=0.1,
@@ -124,7 +124,7 @@ CONFIG = {
                 keys=["panic", "err", "exec", "ret"], transform=common.hide_help, oracle=oracle_c09, theorems="C09_*", n_quick=400),
     "C10": dict(profile=dict(p_positional=0.95, n_pos=(1, 4), p_ev_plain=0.4, p_ev_term=0.08, p_passdd=0.8, p_required=0.02, p_commands=0.4,
                              p_bad_value=0.04, p_ev_unknown=0.02, n_events=(1, 10), p_pos_required=0.2),
-                keys=["panic", "err", "vals", "ret"], transform=t_err_type_only, theorems="C10_*"),
+                keys=["panic", "err", "vals", "ret"], transform=t_err_type_only, theorems="C10_*", n_parses=2),
     "C11": dict(profile=dict(p_bad_value=0.35, p_base=0.4, p_choice=0.3, p_required=0.01, p_commands=0.15, p_ev_unknown=0.01, p_ev_garbage=0.0,
                              p_ev_opt=0.85, n_events=(1, 5), p_mutate_argv=0.0, p_quoted=0.03,
                              types=[("bool", 3), ("int", 8), ("int8", 8), ("int16", 5), ("int32", 5), ("int64", 6), ("uint", 5), ("uint8", 8), ("uint16", 4),
@@ -164,7 +164,7 @@ def run_property(rep, rng, pid, tier, replay=None, extra_streams=None):
             if not f(rep, rng, tier):
                 return
     common.scenario_check(rep, rng, pid, n, profile=cfg["profile"], keys=cfg["keys"], transform=cfg["transform"],
-                          oracle=cfg.get("oracle"), theorem_names=cfg["theorems"], stream="parse")
+                          oracle=cfg.get("oracle"), theorem_names=cfg["theorems"], stream="parse", n_parses=cfg.get("n_parses", 1))
 
 
 def rule_text(pid):
